@@ -1,8 +1,13 @@
+mod alloc_track;
 mod c03;
+mod c04;
 mod c05;
 mod c20;
 mod smoke;
 mod typed;
+
+#[global_allocator]
+static GLOBAL: alloc_track::Tracking = alloc_track::Tracking;
 
 fn main() {
     let args: Vec<String> = std::env::args().skip(1).collect();
@@ -10,11 +15,18 @@ fn main() {
         eprintln!("usage: vcheck <property-id|smoke> [--tier quick|thorough] [--replay file]");
         std::process::exit(2);
     };
+    if id == "C04-worker" {
+        std::process::exit(c04::worker_main(&args[1..]));
+    }
+    if id == "C04-one" {
+        std::process::exit(c04::one_main(&args[1..]));
+    }
     let ctx = vlib::report::parse_args(&id, &args[1..]);
     vlib::runner::install_panic_hook();
     let out = match id.as_str() {
         "smoke" => std::process::exit(smoke::run(&ctx)),
         "C03" => c03::run(&ctx),
+        "C04" => c04::run(&ctx),
         "C05" => c05::run(&ctx),
         "C20" => c20::run(&ctx),
         _ => {
